@@ -153,10 +153,10 @@ impl ImplAut {
         }
         let mut x = hit?;
         let mut w = vec![];
-        while x != s || !w.is_empty() && prev.get(&x).is_some() && false {
-            let Some((p, b)) = prev.get(&x) else { break };
-            w.push(*b);
-            x = *p;
+        while x != s {
+            let (p, b) = prev[&x];
+            w.push(b);
+            x = p;
         }
         w.reverse();
         Some(w)
